@@ -57,6 +57,10 @@ class TplSystem:
         self.sets = {'A': rng.randint(0, 16, (4, L)).astype('float64'), 'B': rng.randint(0, 16, (3, L)).astype('float64')}
         G = 3
         self.hyp = {'A': np.array(self.classes)[rng.randint(0, K, (4, G))].astype('uint16'), 'B': np.array(self.classes)[rng.randint(0, K, (3, G))].astype('uint16')}
+        # set R: a matching batch that must be refused in the middle of a history - its hypotheses are template classes for candidate 0 and 2, one of candidate 1 is not a class
+        self.sets['R'] = rng.randint(0, 16, (2, L)).astype('float64')
+        hr = np.array(self.classes)[rng.randint(0, K, (2, G))].astype('uint16'); hr[1, 1] = 9999
+        self.hyp['R'] = hr
         self.G = G
         self.tol = {'float32': 2.0 ** -12, 'float64': 2.0 ** -36}[prec]
 
@@ -112,6 +116,8 @@ class TplSystem:
         if nb == 1 and not matched and (self.tier == 'thorough' or (self.decl == 'contiguous' and not self.und)):
             out.append((('B', 1), 1)); out.append((('B', Nb), 1))
         nxt = 'A' if not matched else 'B'
+        if matched and nref < 10 and self.kind != 'static':
+            out.append((('M', 'R', 2), 1))                   # a refused matching between the two accepted ones
         for bs in range(1, len(self.sets[nxt]) + 1):
             out.append((('M', nxt, bs), 0))
         return out
@@ -198,6 +204,15 @@ class TplSystem:
             if obs['pt'] != 0:
                 v.append((fpb + 'match-before-build-counted', '%s: processed_traces=%d after a refused matching' % (cfg, obs['pt'])))
             return (nb, matched, nref + 1), v
+        if name == 'R':
+            if obs['exc'] is None:
+                self.counters['undeclared_hypothesis_not_refused'] = self.counters.get('undeclared_hypothesis_not_refused', 0) + 1      # whether it is refused is C16's / C12's business
+                return (nb, ('dead', 'dead'), nref + 10), v
+            n_before = sum(len(self.sets[s_]) for s_ in matched)
+            if obs['pt'] != n_before:
+                v.append((fpb + 'refused-match-counted', '%s: processed_traces=%d after a refused matching batch (%d matched before)' % (cfg, obs['pt'], n_before)))
+            self.counters['refused_matchings_mid_history'] = self.counters.get('refused_matchings_mid_history', 0) + 1
+            return (nb, matched, nref + 10), v
         if obs['exc'] is not None:
             v.append((fpb + ('match-raised-after-refused-match' if nref else 'match-raised'), '%s: run() on set %s [batch size %d] after build raised %s: %s' % (cfg, name, bs, obs['exc'], obs.get('exc_msg'))))
             return (nb, ('dead', 'dead'), nref), v
